@@ -716,7 +716,7 @@ def ht_cases(ctx):
             base.append(w)
             add("forest_%d" % n, ht_texts(w))
     four = list(forests(4))
-    for ps in rng.sample(four, 60 * scale):
+    for ps in rng.sample(four, min(len(four), 60 * scale)):
         w = make_ws(ps, rng)
         base.append(w)
         add("forest_4", ht_texts(w))
